@@ -22,6 +22,17 @@ def classify(op, m):
 
 
 def generate(tier, rng):
+    # every sized-read schedule is also run with the remainder drained by io.Copy (the usual consumer; uses the source's WriteTo if any)
+    n = 0
+    for op in generate0(tier, rng):
+        yield op
+        if op.startswith('mice.dec '):
+            n += 1
+            if n % 3 == 0 or len(op) < 400:
+                yield 'mice.dec.copy ' + op[len('mice.dec '):]
+
+
+def generate0(tier, rng):
     thorough = tier == 'thorough'
     for d in ('02', '03'):
         for rs in range(1, 9):
